@@ -372,7 +372,7 @@ fn gen_c13(tier: &Tier, rng: &mut Rng, _w: usize, nw: usize, out: &mut Vec<Case>
     let n = if tier.thorough { 800_000 } else { 40_000 } / nw;
     for _ in 0..n {
         let x = mutant(rng, &reals);
-        out.push(Case::new("mutant", vec![format!("stream {} 16", tok(&x))]));
+        out.push(Case::new("mutant", vec![format!("stream {} {}", tok(&x), if rng.chance(1, 16) { 300 } else { 16 })]));
     }
 }
 
